@@ -66,9 +66,23 @@ pub fn evaluate_const_expr(expr: &typed_ast::Expression) -> Result<Exponent> {
                     }
                     typed_ast::BinaryOperator::Power => {
                         if rhs.is_integer() {
+                            // a negative integer exponent is the reciprocal raised to the
+                            // positive one: 2^-1 = (1/2)^1
+                            let (base, exponent) = if rhs < Rational::zero() {
+                                if lhs == Rational::zero() {
+                                    return Err(Box::new(
+                                        TypeCheckError::DivisionByZeroInConstEvalExpression(
+                                            e.full_span(),
+                                        ),
+                                    ));
+                                }
+                                (lhs.recip(), -rhs.to_integer())
+                            } else {
+                                (lhs, rhs.to_integer())
+                            };
                             Ok(num_traits::checked_pow(
-                                lhs,
-                                rhs.to_integer().try_into().map_err(|_| {
+                                base,
+                                exponent.try_into().map_err(|_| {
                                     TypeCheckError::OverflowInConstExpr(expr.full_span())
                                 })?,
                             )
